@@ -685,11 +685,14 @@ type hbtNote struct {
 	ts      time.Time
 	tsErr   bool
 	timeout time.Duration
+	src     string // entity/feature the notification says it comes from
+	dst     string
 }
 
 type hbtWriter struct {
 	mu    sync.Mutex
 	notes []hbtNote
+	slow  time.Duration // every heartbeat notification takes this long to send (widens overlaps between entities)
 
 	// a writer that can be held: when armed, the next heartbeat notification blocks inside
 	// WriteShipMessageWithPayload (the refresh is then "in flight" inside SetData) until released
@@ -725,9 +728,13 @@ func (w *hbtWriter) WriteShipMessageWithPayload(m []byte) {
 	if hb.HeartbeatTimeout != nil {
 		n.timeout, _ = hb.HeartbeatTimeout.GetTimeDuration()
 	}
+	n.src, n.dst = h.AddrS(d.Datagram.Header.AddressSource), h.AddrS(d.Datagram.Header.AddressDestination)
 	w.mu.Lock()
 	w.notes = append(w.notes, n)
 	w.mu.Unlock()
+	if w.slow > 0 {
+		time.Sleep(w.slow)
+	}
 	if atomic.CompareAndSwapInt32(&w.armed, 1, 0) {
 		w.held <- struct{}{}
 		<-w.release
@@ -750,8 +757,13 @@ type hbtSpan struct{ a, b time.Time }
 
 // hbtSubscribe connects a peer with a device-diagnosis client feature and lets it subscribe to the feature.
 func hbtSubscribe(w *hbtWorld, ski, dev string, wr *hbtWriter) {
-	w.l.SetupRemoteDevice(ski, wr)
-	rdev := w.l.RemoteDeviceForSki(ski)
+	hbtSubscribeTo(w.l, ski, dev, wr, w.f.Address())
+}
+
+// hbtSubscribeTo: one peer whose device-diagnosis client feature subscribes to each of the given server features.
+func hbtSubscribeTo(l *spine.DeviceLocal, ski, dev string, wr *hbtWriter, servers ...*model.FeatureAddressType) {
+	l.SetupRemoteDevice(ski, wr)
+	rdev := l.RemoteDeviceForSki(ski)
 	inject := func(d model.DatagramType) {
 		b, _ := json.Marshal(model.Datagram{Datagram: d})
 		_, _ = rdev.HandleSpineMesssage(b)
@@ -770,7 +782,99 @@ func hbtSubscribe(w *hbtWorld, ski, dev string, wr *hbtWriter) {
 	cl := model.CmdClassifierTypeReply
 	inject(model.DatagramType{Header: model.HeaderType{AddressSource: h.FA(dev, []uint{0}, 0), AddressDestination: h.FA("HEMS", []uint{0}, 0), MsgCounter: util.Ptr(model.MsgCounterType(1)), MsgCounterReference: util.Ptr(model.MsgCounterType(1)), CmdClassifier: &cl}, Payload: model.PayloadType{Cmd: []model.CmdType{{NodeManagementDetailedDiscoveryData: dd}}}})
 	cc := model.CmdClassifierTypeCall
-	inject(model.DatagramType{Header: model.HeaderType{AddressSource: h.FA(dev, []uint{0}, 0), AddressDestination: h.FA("HEMS", []uint{0}, 0), MsgCounter: util.Ptr(model.MsgCounterType(2)), CmdClassifier: &cc}, Payload: model.PayloadType{Cmd: []model.CmdType{{NodeManagementSubscriptionRequestCall: spine.NewNodeManagementSubscriptionRequestCallType(h.FA(dev, []uint{1}, 1), w.f.Address(), model.FeatureTypeTypeDeviceDiagnosis)}}}})
+	for i, srv := range servers {
+		inject(model.DatagramType{Header: model.HeaderType{AddressSource: h.FA(dev, []uint{0}, 0), AddressDestination: h.FA("HEMS", []uint{0}, 0), MsgCounter: util.Ptr(model.MsgCounterType(2 + i)), CmdClassifier: &cc}, Payload: model.PayloadType{Cmd: []model.CmdType{{NodeManagementSubscriptionRequestCall: spine.NewNodeManagementSubscriptionRequestCallType(h.FA(dev, []uint{1}, 1), srv, model.FeatureTypeTypeDeviceDiagnosis)}}}})
+	}
+}
+
+// hbtMulti: several entities of one device run heartbeats side by side (equal periods tick at the same instants),
+// two peers subscribe to every entity's device-diagnosis feature, one of them slow to send. Judged per (entity,
+// subscriber): the subscriber receives that entity's counters 1, 2, 3, ... once each, from that entity's feature
+// address, and nothing else.
+func hbtMulti(periods []time.Duration, dur time.Duration) (fails [][2]string, desc string) {
+	what := fmt.Sprintf("entities with heartbeat timeouts %v, two subscribers each", periods)
+	fail := func(key, detail string) {
+		fails = append(fails, [2]string{key, what + ": " + detail})
+	}
+	id := atomic.AddInt64(&hbtWorldSeq, 1)
+	l := spine.NewDeviceLocal("b", "m", "s", "c", "HEMS", model.DeviceTypeTypeEnergyManagementSystem, model.NetworkManagementFeatureSetTypeSmart)
+	var ents []*spine.EntityLocal
+	var feats []api.FeatureLocalInterface
+	var servers []*model.FeatureAddressType
+	for i, T := range periods {
+		e := spine.NewEntityLocal(l, model.EntityTypeTypeCEM, spine.NewAddressEntityType([]uint{uint(i + 1)}), T)
+		l.AddEntity(e)
+		f := e.GetOrAddFeature(model.FeatureTypeTypeDeviceDiagnosis, model.RoleTypeServer)
+		ents, feats, servers = append(ents, e), append(feats, f), append(servers, f.Address())
+	}
+	const nSub = 2
+	var wr [nSub]*hbtWriter
+	for p := 0; p < nSub; p++ {
+		wr[p] = newHbtWriter()
+		if p == 0 {
+			wr[p].slow = 300 * time.Microsecond
+		}
+		hbtSubscribeTo(l, fmt.Sprintf("hbt%d-m%d", id, p), fmt.Sprintf("dev%d", p), wr[p], servers...)
+	}
+	for i, f := range feats {
+		if n := len(l.SubscriptionManager().SubscriptionsOnFeature(*f.Address())); n != nSub {
+			fail("C16/world", fmt.Sprintf("%d subscriptions on the device-diagnosis feature of entity %d, expected %d", n, i+1, nSub))
+			return
+		}
+	}
+	for _, f := range feats {
+		f := f
+		if pan := h.Recover(func() { f.AddFunctionType(model.FunctionTypeDeviceDiagnosisHeartbeatData, true, false) }); pan != nil {
+			fail("C16/panic-sequential", fmt.Sprintf("AddFunctionType(heartbeat) panicked: %v", pan))
+			return
+		}
+	}
+	time.Sleep(dur)
+	for _, e := range ents {
+		e.HeartbeatManager().StopHeartbeat()
+	}
+	time.Sleep(20 * time.Millisecond)
+	total := 0
+	for p := 0; p < nSub; p++ {
+		wr[p].mu.Lock()
+		notes := append([]hbtNote{}, wr[p].notes...)
+		wr[p].mu.Unlock()
+		total += len(notes)
+		per := map[string][]uint64{}
+		for _, n := range notes {
+			per[n.src] = append(per[n.src], n.ctr)
+			if n.dst != "1/1" {
+				fail("C16/refresh-notified-to-wrong-address", fmt.Sprintf("subscriber %d received a heartbeat addressed to %s", p, n.dst))
+			}
+		}
+		for i, f := range feats {
+			src := h.AddrS(f.Address())
+			got := per[src]
+			delete(per, src)
+			d, _ := f.DataCopy(model.FunctionTypeDeviceDiagnosisHeartbeatData).(*model.DeviceDiagnosisHeartbeatDataType)
+			last := uint64(0)
+			if d != nil && d.HeartbeatCounter != nil {
+				last = *d.HeartbeatCounter
+			}
+			ok := uint64(len(got)) == last
+			for k, c := range got {
+				if c != uint64(k+1) {
+					ok = false
+				}
+			}
+			if !ok {
+				fail("C16/refresh-not-notified-once", fmt.Sprintf("subscriber %d received from entity %d (%s) the counters %v; the entity's heartbeat counter stands at %d (every refresh 1..%d is to be notified once, labelled with its own entity)", p, i+1, src, got, last, last))
+			}
+			if want := uint64(dur / (periods[i] + periods[i]/2)); last < want {
+				fail("C16/period-exceeds-timeout", fmt.Sprintf("entity %d refreshed %d times in %v", i+1, last, dur))
+			}
+		}
+		for src, got := range per {
+			fail("C16/refresh-not-notified-once", fmt.Sprintf("subscriber %d received heartbeats labelled %s, which is no heartbeat feature of the device: counters %v", p, src, got))
+		}
+	}
+	desc = fmt.Sprintf("%s: %d notifications in %v", what, total, dur)
+	return
 }
 
 // the life of a live heartbeat, as a script of operations and waits
@@ -1070,6 +1174,11 @@ func hbtRealtime(T time.Duration, ticks int, attach bool, script []string) (fail
 	if len(gaps) > 0 {
 		median = gaps[len(gaps)/2]
 	}
+	// "with a period not exceeding the announced timeout": the typical gap, not only the worst one (the announced
+	// value is the configured one truncated to 0.1 s; the period must follow the announcement)
+	if tol := 10*time.Millisecond + T/100; len(gaps) >= 3 && median > T+tol {
+		fail("C16/period-exceeds-timeout", fmt.Sprintf("the median of %d gaps between refreshes inside running spans is %v, the data announces the timeout %v (tolerance %v)", len(gaps), median, T, tol))
+	}
 	announced = T
 	max := time.Duration(0)
 	if len(gaps) > 0 {
@@ -1260,6 +1369,23 @@ func TestHeartbeat(t *testing.T) {
 			r.Sample(desc)
 			return
 		}
+		if len(ops) > 0 && strings.HasPrefix(ops[0], "multi ") {
+			var ps []time.Duration
+			for _, x := range strings.Split(strings.Fields(ops[0])[1], ",") {
+				ms, _ := strconv.Atoi(x)
+				ps = append(ps, time.Duration(ms)*time.Millisecond)
+			}
+			fails, desc := hbtMulti(ps, 6*time.Second)
+			r.Eval("multi-entity", "")
+			for _, f := range fails {
+				r.SpecFail(f[0], ops, f[1])
+			}
+			if len(fails) == 0 {
+				r.Traces++
+			}
+			r.Sample(desc)
+			return
+		}
 		if len(ops) > 0 && strings.HasPrefix(ops[0], "held ") {
 			ms, _ := strconv.Atoi(strings.Fields(ops[0])[1])
 			fails := hbtHeld(time.Duration(ms) * time.Millisecond)
@@ -1336,15 +1462,52 @@ func TestHeartbeat(t *testing.T) {
 		script    []string
 	}
 	full := append(append([]string{}, hbtScriptAttached...), hbtScriptReadd...)
+	short := []string{"add", "run", "stop", "silence"}
 	plan := []rt{{100, 6, true, full}, {250, 4, true, hbtScriptAttached}, {1000, 2, true, hbtScriptAttached}, {2300, 4, true, hbtScriptAttached},
+		{150, 8, true, hbtScriptAttached}, {1950, 4, true, short},
 		{100, 6, false, hbtScriptDetached}, {300, 4, false, hbtScriptDetached}}
 	if h.Tier() == "thorough" {
-		plan = append(plan, rt{150, 8, true, full}, rt{500, 4, true, full}, rt{2000, 2, true, hbtScriptAttached}, rt{2100, 10, true, full},
+		plan = append(plan, rt{350, 6, true, full}, rt{500, 4, true, full}, rt{2000, 2, true, hbtScriptAttached}, rt{2100, 10, true, full},
 			rt{4000, 2, true, hbtScriptAttached}, rt{6000, 2, true, hbtScriptAttached}, rt{1000, 2, false, hbtScriptDetached}, rt{2300, 4, false, hbtScriptDetached})
 	}
 	var wg sync.WaitGroup
 	var bmu sync.Mutex
 	var descs, flakes []string
+	// several entities with heartbeats side by side, two subscribers on each
+	multis := [][]time.Duration{{100 * time.Millisecond, 100 * time.Millisecond, 100 * time.Millisecond}, {200 * time.Millisecond, 300 * time.Millisecond}}
+	if h.Tier() == "thorough" {
+		multis = append(multis, []time.Duration{100 * time.Millisecond, 100 * time.Millisecond}, []time.Duration{100 * time.Millisecond, 200 * time.Millisecond, 300 * time.Millisecond, 700 * time.Millisecond})
+	}
+	for _, ps := range multis {
+		wg.Add(1)
+		go func(ps []time.Duration) {
+			defer wg.Done()
+			dur := time.Duration(h.Scale(6, 20)) * time.Second
+			fails, desc := hbtMulti(ps, dur)
+			if len(fails) > 0 {
+				f2, d2 := hbtMulti(ps, dur)
+				bmu.Lock()
+				flakes = append(flakes, fmt.Sprintf("first run of %v: %v", ps, fails))
+				bmu.Unlock()
+				fails, desc = f2, d2
+			}
+			var ms []string
+			for _, p := range ps {
+				ms = append(ms, strconv.Itoa(int(p.Milliseconds())))
+			}
+			bmu.Lock()
+			defer bmu.Unlock()
+			descs = append(descs, desc)
+			r.Eval("multi-entity", "")
+			op := []string{"multi " + strings.Join(ms, ",")}
+			for _, f := range fails {
+				r.SpecFail(f[0], op, f[1])
+			}
+			if len(fails) == 0 {
+				r.Traces++
+			}
+		}(ps)
+	}
 	for _, p := range plan {
 		wg.Add(1)
 		go func(p rt) {
